@@ -220,8 +220,9 @@ def parse_structured_value(name: str, field: Dict, context: ParseContext) -> Def
         raise NotImplementedError("This should be unreachable!")
 
     plugin = None
+    function_name = _coerce_to_string(function_name, context)
     if "." in function_name:
-        namespace, name = function_name.split(".")
+        namespace, name = function_name.split(".", 1)
         plugin = context.parser_macros_plugins.get(namespace)
     if plugin:
         try:
